@@ -1,0 +1,14 @@
+//go:build verif
+
+package verifhooks
+
+import (
+	"oras.land/oras-go/v2/internal/graph"
+)
+
+// GraphMemory is internal/graph.Memory (the predecessor index shared by the
+// memory, OCI and file stores).
+type GraphMemory = graph.Memory
+
+// NewGraphMemory is graph.NewMemory.
+func NewGraphMemory() *GraphMemory { return graph.NewMemory() }
